@@ -21,7 +21,8 @@ import codec_ber as cb
 import codec_der as cd
 
 CORR_IMPORTS = ['Base.Prelude', 'Syntax.Asn1', 'Ber.Header', 'Ber.BerCommon', 'Ber.DerImpl', 'Ber.BerImpl', 'Ber.BerCorr',
-                'Ber.X690']
+                'Ber.X690', 'Ber.BerScope', 'Ber.BerAcceptBase']
+SCOPE_FUEL = 24
 
 
 SHOW = 'Local Open Scope string_scope.\n'
@@ -51,13 +52,21 @@ class Batch(object):
         self.ctx, self.mods = ctx, mods
         self.items, self.meta = [], []
 
-    def add(self, case, check_expr, show_expr, report):
+    def add(self, case, check_expr, show_expr, report, soft=None):
+        """soft: histogram key to count a failing check under instead of reporting a violation"""
         self.items.append(check_expr)
-        self.meta.append((case, show_expr, report))
+        self.meta.append((case, show_expr, report, soft))
 
     def run(self, name='batch'):
         ctx = self.ctx
         bad = cb.eval_shards(ctx, name, CORR_IMPORTS, env_preamble(self.mods), self.items)
+        for i in bad:
+            if self.meta[i][3]:
+                ctx.count(self.meta[i][3])
+                ctx.extra.setdefault('out_of_coq_scope', [])
+                if len(ctx.extra['out_of_coq_scope']) < 5:
+                    ctx.extra['out_of_coq_scope'].append(self.meta[i][2](None))
+        bad = [i for i in bad if not self.meta[i][3]]
         first = bad[:MAX_SHOWN]
         shown = show_models(ctx, self.mods, [self.meta[i][0] for i in first], None,
                             exprs=[self.meta[i][1] for i in first])
@@ -100,6 +109,30 @@ def gen_cases(ctx, n_modules, per_type, opts=None, codec='der'):
                 c.mi, c.mod, c.text, c.tname, c.t, c.gen = mi, mod, text, tname, t, g
                 c.v = g.gen_value(t)
                 c.numeric = rng.random() < .25
+                cases.append(c)
+    # the hand-made corner modules
+    for mod, vals in cb.corner_modules():
+        if cb.scope_problems(mod, codec):
+            continue
+        text = gen_asn1.render_module(mod, gen_asn1.make_resolver(mod))
+        try:
+            lib.compile_string(text, codec)
+        except Exception as e:  # noqa
+            ctx.violation('corner module does not compile with %s: %s: %s' % (codec, type(e).__name__, e),
+                          dict(kind='compile', spec=text, codec=codec))
+            continue
+        g = gen_asn1.Gen(rng, opts or cb.default_opts())
+        g.types = mod['types']
+        g.pending = {}
+        mi = len(mods)
+        mods.append((mod, text))
+        ctx.count('gen:corner-modules')
+        tmap = dict(mod['types'])
+        for tname, v in vals:
+            for numeric in (False, True):
+                c = Case()
+                c.mi, c.mod, c.text, c.tname, c.t, c.gen = mi, mod, text, tname, tmap[tname], g
+                c.v, c.numeric = v, numeric
                 cases.append(c)
     return mods, cases
 
@@ -152,6 +185,26 @@ def corr_encode(ctx, batch, cases, codec='der', cmod=cd, label='DER'):
                       lib=(r[1].hex()[:80] if r[0] == 'ok' else r[1])))
         ctx.count('corr:encode:' + (r[0] if r[0] == 'ok' else r[1]))
     return enc
+
+
+def scope_checks(ctx, batch, cases, which):
+    """the generated universe satisfies the scope hypotheses of the theorems
+    (Coq's own decidable predicates, evaluated on the exported types); a type
+    outside is only counted: the theorems do not speak about it"""
+    seen = set()
+    for c in cases:
+        key = (c.mi, c.tname, c.numeric)
+        if key in seen:
+            continue
+        seen.add(key)
+        env, ty, _ = terms(c)
+        num = to_coq(bool(c.numeric))
+        if which == 'enc':
+            expr = 'scope_enc %s %s %d%%nat %s' % (num, env, SCOPE_FUEL, ty)
+        else:
+            expr = '(in_scope %s %s %d%%nat %s && compiles %s %d%%nat %s)' % (num, env, SCOPE_FUEL, ty, env, SCOPE_FUEL, ty)
+        ctx.count('scope:checked')
+        batch.add(c, expr, expr, lambda mv, c=c: 'type %s of %s' % (c.tname, c.text[:400]), soft='scope:outside-coq-scope')
 
 
 def mutate(rng, data):
@@ -375,6 +428,7 @@ def run(ctx):
     enc = corr_encode(ctx, batch, cases)
     corr_decode(ctx, batch, cases, enc, 2 if ctx.quick else 4)
     pt_der(ctx, batch, cases, enc)
+    scope_checks(ctx, batch, cases, 'enc')
     batch.run()
     ctx.extra['open_theorems'] = OPEN
     if not ok:
